@@ -21,6 +21,7 @@ import (
 	"encoding/binary"
 	"fmt"
 	"runtime/debug"
+	"sort"
 	"strings"
 	"sync"
 	"sync/atomic"
@@ -544,6 +545,7 @@ type c03Explorer struct {
 	nRepair, nEOF, nNotExist, nHkRemovals, nSkipped2                     atomic.Int64
 	nTornImages, nInsideOp, nNonExhaustiveTear, nMultiUnsynced, nZeroImg atomic.Int64
 	stop                                                                 atomic.Bool // budget used up
+	windows                                                              sync.Map    // "lo..hi" of live segment indexes with hi >= 9
 	sampleMu                                                             sync.Mutex
 	nSamples                                                             map[string]int
 }
@@ -607,6 +609,91 @@ func (e *c03Explorer) sample(kind string, v interface{}) {
 	e.r.Sample(v)
 }
 
+// noteWindow remembers the window of live segment indexes of a crash point once
+// the indexes have two digits (long-rotation family).
+func (e *c03Explorer) noteWindow(st *crashfs.State) {
+	lo, hi := -1, -1
+	for i := range st.Files {
+		p := st.Files[i].Path
+		if !strings.HasPrefix(p, c03FilePrefix) {
+			continue
+		}
+		var n int
+		if _, err := fmt.Sscanf(p[len(c03FilePrefix):], "%d", &n); err != nil {
+			continue
+		}
+		if lo < 0 || n < lo {
+			lo = n
+		}
+		if n > hi {
+			hi = n
+		}
+	}
+	if hi >= 9 {
+		e.windows.Store(fmt.Sprintf("%d..%d", lo, hi), true)
+	}
+}
+
+// c03LongHistories: directed long histories (the exhaustive phases never get
+// past ~7 segments). Segment i of the log holds [W5], [W1] or [W1,W5] (i mod 3),
+// so neighbouring segments differ in size; n rotations give the window 0..n;
+// an optional housekeeping call with TotalLimit=60 deletes head segments
+// (windows like 8..11, 9..12, 97..101); the tail patterns leave the torn record
+// as first record of the last segment, as second record of the last segment, or
+// behind an empty middle segment. Every history is explored together with its
+// two shorter prefixes, each for all crash points of its last operation.
+func c03LongHistories(thorough bool) [][]c03Op {
+	seg := func(i int) []c03Op {
+		switch i % 3 {
+		case 0:
+			return []c03Op{c03W5}
+		case 1:
+			return []c03Op{c03W1}
+		}
+		return []c03Op{c03W1, c03W5}
+	}
+	base := func(n int) []c03Op { // segments 0..n-1 filled and rotated: the tail is the empty segment n
+		var ops []c03Op
+		for i := 0; i < n; i++ {
+			ops = append(ops, seg(i)...)
+			ops = append(ops, c03Shift)
+		}
+		return ops
+	}
+	tails := [][]c03Op{
+		{c03W5, c03Sync},                 // torn first record of the last segment
+		{c03W1, c03Sync, c03W5, c03Sync}, // torn second record of the last segment
+		{c03Shift, c03W5, c03Sync},       // an empty middle segment before the torn one
+		{c03W5, c03W1, c03HkLate},        // housekeeping's own sync tears
+	}
+	var out [][]c03Op
+	add := func(ops []c03Op) {
+		for cut := 2; cut >= 0; cut-- {
+			out = append(out, append([]c03Op(nil), ops[:len(ops)-cut]...))
+		}
+	}
+	ns := []int{9, 10, 11, 12}
+	for _, n := range ns {
+		for _, tl := range tails {
+			add(append(base(n), tl...))
+		}
+	}
+	// head deletion: windows that straddle 9/10 without starting at 0
+	for _, n := range []int{11, 12, 13} {
+		for _, tl := range tails[:3] {
+			add(append(append(base(n), c03HkSoon), tl...))
+		}
+	}
+	if thorough {
+		for _, n := range []int{100, 101} {
+			for _, tl := range tails[:3] {
+				add(append(append(base(n), c03HkSoon), tl...))
+			}
+		}
+	}
+	return out
+}
+
 // exploreHistory runs one history and everything below it.
 func (e *c03Explorer) exploreHistory(w *c03Worker, ops []c03Op) {
 	h := w.runHistory(ops, -1)
@@ -631,6 +718,7 @@ func (e *c03Explorer) exploreHistory(w *c03Worker, ops []c03Op) {
 	}
 	h.fs.StatesFrom(from, h.logLen, func(st *crashfs.State) {
 		e.nPoints.Add(1)
+		e.noteWindow(st)
 		k1 := st.LogIdx
 		synced := h.syncedBefore
 		if k1 == h.logLen {
@@ -912,6 +1000,7 @@ func TestVerifC03(t *testing.T) {
 		"crash points: every file-system call boundary of the last operation of every history (= every call of every operation, since all prefixes are histories); "+
 		"crash images: per file with an un-synced suffix every surviving length if the suffix is <= 64 bytes, else lengths {0,1,len-1,len} and b-1,b,b+1,b+7,b+8,b+9 around every record / write-call boundary b; "+
 		"plus the zero-filled-payload-tail family: for each such length whose last byte lies in the payload of a record with an intact un-synced header, the last z in {1, half, all} surviving payload bytes read as zeros (never a header byte); "+
+		"plus the long-rotation family: directed histories with 9..13 (thorough: 100, 101) rotations, segments of differing sizes, optionally a housekeeping call that deletes head segments (live windows 0..9 .. 0..13, 7..11-like, thorough 9x..101), ending in a torn first / second record of the last segment or a torn record behind an empty middle segment, each with its two shorter prefixes, all crash points of the last operation; "+
 		"per image: recovery as in applyRoundWAL, append records of lengths %v (one run per variant), Sync, Close, read back; then every crash point x torn length of that cycle, second recovery, append %v, read back. "+
 		"evaluations = crash images recovered (both generations); distinct_nontrivial = distinct images with a torn (partially surviving) un-synced suffix or taken inside an operation",
 		phaseDesc, c03Cfg.FileLimit, c03Cfg.TotalLimit, e.append1, e.append2))
@@ -978,6 +1067,44 @@ func TestVerifC03(t *testing.T) {
 			}
 			completed = append(completed, fmt.Sprintf("%s:depth=%d", ph.name, d))
 		}
+	}
+
+	// long-rotation family
+	long := c03LongHistories(r.Thorough())
+	if allDone && !r.Expired() {
+		histBefore, imgBefore := e.nHist.Load(), e.nImg1.Load()+e.nImg2.Load()
+		ev.Par(len(long), 16, func(i int) {
+			if e.stop.Load() {
+				return
+			}
+			w := <-c03Workers
+			defer func() { c03Workers <- w }()
+			e.exploreHistory(w, long[i])
+		})
+		if e.stop.Load() {
+			allDone = false
+		} else {
+			completed = append(completed, "long-rotation")
+		}
+		r.Set("long_rotation_histories", e.nHist.Load()-histBefore)
+		r.Set("long_rotation_crash_images", e.nImg1.Load()+e.nImg2.Load()-imgBefore)
+	} else {
+		allDone = false
+	}
+	var windows []string
+	e.windows.Range(func(k, _ interface{}) bool { windows = append(windows, k.(string)); return true })
+	sort.Strings(windows)
+	r.Set("segment_windows_with_two_digit_indexes", windows)
+	if allDone {
+		straddle := false
+		for _, wd := range windows {
+			var lo, hi int
+			fmt.Sscanf(wd, "%d..%d", &lo, &hi)
+			if lo > 0 && lo <= 9 && hi >= 10 {
+				straddle = true
+			}
+		}
+		r.Sanity(straddle && len(windows) >= 4, "long-rotation family vacuous: windows %v", windows)
 	}
 
 	r.Eval(int(e.nImg1.Load() + e.nImg2.Load()))
